@@ -43,6 +43,7 @@ type Frame struct {
 	topEnv  *Env   // contract environment of the function under verification (top frame only)
 	panicsC string // "panics when" condition evaluated at entry (top frame only)
 	entry   *State
+	loopFrames map[string]*loopFrame
 }
 
 func (f *Frame) where(in ssa.Instruction) string {
